@@ -139,6 +139,18 @@ example : ∃ u f c text out, shape u f c text = .ok out ∧ hasFlag c.flags BF_
    by decide⟩
 
 
+/-- C13_clusters_from_input ("its cluster merged into a neighbour", the part that holds for every
+    input): whatever is hidden or removed, at every cluster level and in every direction, every cluster
+    value of the result is the cluster of some input character — merging (graphemes, reversal,
+    deletion) only ever copies existing values (minimum of a segment, or the deleted glyph's own).
+    That the value lands in the range of a NEIGHBOUR (and that the smallest cluster survives at levels
+    0 / 1) is checked on the implementation by the `di-invisible` search for all default ignorables. -/
+theorem C13_clusters_from_input (u : Ucd) (f : Font) (c : Cfg) (text : List (Nat × Nat)) (out : List G)
+    (h : shape u f c text = .ok out) : ∀ g ∈ out, ∃ t ∈ text, g.cluster = t.2 := by
+  obtain ⟨_, h | h⟩ := shape_ok_cases h
+  · subst h; simp
+  · subst h; exact shapeCore_cl u f c text
+
 /-- C13_preserve: with PRESERVE_DEFAULT_IGNORABLES the two default-ignorable steps do nothing
     (for every buffer, flag state and font) ... -/
 theorem C13_preserve_steps (f : Font) (c : Cfg) (s : Scratch) (l : List G)
